@@ -74,7 +74,8 @@ class PEval(object):
         return True
 
     def _path_map(self, fn, n, nid):
-        """[(caller prefix, callee prefix)] for pointer parameters, {callee '*p' path: caller local decl id}"""
+        """[(callee parameter name, caller path string, passed-by-address?)] for pointer parameters,
+        {callee '*p' path: caller local decl id} for `&local` arguments"""
         pm = []
         outv = {}
         for i, prm in enumerate(fn.params):
@@ -87,25 +88,43 @@ class PEval(object):
             c = self.cn.canon(nid, a)
             if c is None:
                 continue
-            if c[3]:
-                pm.append((c[0] + '.', prm[0] + '->'))
-                pm.append((c[0], '*' + prm[0]))
-            else:
-                pm.append((c[0] + '->', prm[0] + '->'))
-                pm.append((c[0] + '[', prm[0] + '['))
-                pm.append(('*' + c[0], '*' + prm[0]))
-        pm.sort(key=lambda t: -len(t[0]))
+            pm.append((prm[0], c[0], bool(c[3])))
+        pm.sort(key=lambda t: -len(t[1]))
         return pm, outv
 
     @staticmethod
     def _xlate(path, pm, fwd):
-        for a, b in pm:
-            src, dst = (a, b) if fwd else (b, a)
-            if src.endswith(('>', '.', '[')):
-                if path.startswith(src):
-                    return dst + path[len(src):]
-            elif path == src:
-                return dst
+        """re-root an access path: caller -> callee (fwd) or callee -> caller.  A path is  *...*ROOT rest ."""
+        import re
+        mo = re.match(r'^(\**)(.*)$', path)
+        stars, body = mo.group(1), mo.group(2)
+        if fwd:
+            for (prm, cs, addr) in pm:
+                if body == cs or (body.startswith(cs) and body[len(cs):len(cs) + 1] in ('-', '.', '[')):
+                    rest = body[len(cs):]
+                    if not addr:
+                        return stars + prm + rest
+                    # caller X passed as &X:  X.f -> p->f ;  X -> *p ;  X[i] not expressible
+                    if rest.startswith('.'):
+                        return stars + prm + '->' + rest[1:]
+                    if rest == '':
+                        return stars + '*' + prm
+                    return None
+            return None
+        mo2 = re.match(r'^([A-Za-z_]\w*)(.*)$', body)
+        if not mo2:
+            return None
+        root, rest = mo2.group(1), mo2.group(2)
+        for (prm, cs, addr) in pm:
+            if root != prm:
+                continue
+            if not addr:
+                return stars + cs + rest
+            if rest.startswith('->'):
+                return stars + cs + '.' + rest[2:]
+            if rest == '' and stars:
+                return stars[1:] + cs
+            return None
         return None
 
     def _inline_call(self, name, n, nid, args, env, events):
@@ -133,11 +152,13 @@ class PEval(object):
                 inputs[cp] = env[('v', vid)]
         keep = []
         for kp in self.keep_prefixes:
-            for a, b in pm:
-                if kp.startswith(a):
-                    keep.append(b + kp[len(a):])
-                elif a.startswith(kp):
-                    keep.append(b)
+            t = self._xlate(kp, pm, True)
+            if t is not None:
+                keep.append(t)
+            else:
+                for (prm, cs, addr) in pm:
+                    if cs.startswith(kp):
+                        keep.append(prm)
         sub.keep_prefixes = tuple(keep)
         for k, v in self.callvals.items():
             if k.startswith('post:') and isinstance(v, dict):
